@@ -20,3 +20,10 @@ echo "\$ hwloc-calc -i 'node:2(indexes=3,1) pu:2' -p node:all     (documented: a
 timeout 5 "$C" -i 'node:2(indexes=3,1) pu:2' -q -p node:all
 echo "\$ hwloc-calc -i '$T' --pi pack:all.core:all               (documented: every core = 0x000000ff)"
 timeout 5 "$C" -i "$T" -q --pi pack:all.core:all
+# open (met while strengthening the check; proposed fix fixes/C20-calc-range-keyword-prefix.patch): the range keywords are
+# matched by prefix (strncmp), so "pu:all:1", "pu:allx", "pu:oddity", "pu:evening" are taken for all / odd / even instead of
+# being refused: "all ~pu:all:1" prints 0x0 with exit status 0 where every other malformed range ("~pu:0:", "~core:1-2-3") is
+# ignored with a message and leaves 0x000000ff
+run all '~pu:all:1'
+run all '~pu:evening'
+run all '~pu:0:'
